@@ -18,11 +18,14 @@ import (
 // shape model and the three answers with each other.
 
 type C04Query struct {
-	ID       int   `json:"id"`
-	FromAge  int64 `json:"from_age"` // from = now - FromAge
-	UntilAge int64 `json:"until_age"`
-	FromZero bool  `json:"from_zero,omitempty"`
-	Implicit bool  `json:"implicit_now,omitempty"`
+	ID        int   `json:"id"`
+	FromAge   int64 `json:"from_age"` // from = now - FromAge
+	UntilAge  int64 `json:"until_age"`
+	FromZero  bool  `json:"from_zero,omitempty"`
+	Implicit  bool  `json:"implicit_now,omitempty"`
+	UntilZero bool  `json:"until_zero,omitempty"` // until = 0 (the epoch), not "now"
+	TickAt    int   `json:"tick_at,omitempty"`    // implicit now: the clock advances by TickD s at this statement of the call
+	TickD     int64 `json:"tick_d,omitempty"`
 }
 
 type C04Case struct {
@@ -106,6 +109,17 @@ func (c04Sim) Gen(prop, tier string, r *rand.Rand) interface{} {
 		}
 		if q.ID == -1 && chance(r, 0.3) {
 			q.Implicit = true
+			if chance(r, 0.3) {
+				// F3: the clock ticks between two statements of Fetch
+				q.TickAt = int(between(r, 1, 12))
+				q.TickD = between(r, 1, 3)
+			}
+		}
+		if chance(r, 0.04) {
+			q.UntilZero = true
+			if chance(r, 0.5) {
+				q.FromZero = true
+			}
 		}
 		c.Queries = append(c.Queries, q)
 	}
@@ -170,29 +184,44 @@ func (c04Sim) Run(e *Env, ci interface{}) {
 	}
 	now = Now()
 	names := []string{"never-written", "partially-written", "fully-written"}
-	oracle := "C04.shape"
-	if now > math.MaxInt32 {
-		oracle = "C04.shape-after-2038"
-		e.Probe("clock-after-2038")
-	}
 	for qi, q := range c.Queries {
 		e.Op(qi)
-		from := now - q.FromAge
-		until := now - q.UntilAge
-		if q.FromZero {
-			from = 0
-		}
-		if from < 0 || until < 0 || from > math.MaxUint32 || until > math.MaxUint32 {
-			continue
-		}
-		want := model.Shape(archs, q.ID, from, until, now)
+		var want model.ShapeResult
 		for fi, db := range dbs {
+			now = Now()
+			oracle := "C04.shape"
+			if now > math.MaxInt32 {
+				oracle = "C04.shape-after-2038"
+				e.Probe("clock-after-2038")
+			}
+			from := now - q.FromAge
+			until := now - q.UntilAge
+			if q.FromZero {
+				from = 0
+			}
+			if q.UntilZero {
+				until = 0
+			}
+			if from < 0 || until < 0 || from > math.MaxUint32 || until > math.MaxUint32 || q.TickD < 0 || q.TickD > 10 {
+				continue
+			}
 			var ts *wt.TimeSeries
 			var err error
 			var pan string
 			if q.Implicit && q.ID == -1 {
 				wt.Now = timeNow
+				if q.TickAt > 0 && q.TickD > 0 {
+					n := 0
+					wt.VerifYield = func(site int) {
+						n++
+						if n == q.TickAt {
+							Advance(e, q.TickD)
+							e.Fault("F3.clock-tick-inside-fetch")
+						}
+					}
+				}
 				err, pan = callSafely(func() error { var e2 error; ts, e2 = db.Fetch(wt.Timestamp(from), wt.Timestamp(until)); return e2 })
+				wt.VerifYield = nil
 			} else {
 				err, pan = callSafely(func() error {
 					var e2 error
@@ -200,43 +229,44 @@ func (c04Sim) Run(e *Env, ci interface{}) {
 					return e2
 				})
 			}
-			desc := fmt.Sprintf("%s file, layout %s, archive id %d, window (now-%d, now-%d]%s", names[fi], c.Layout, q.ID, now-from, now-until, map[bool]string{true: " (from=0)", false: ""}[q.FromZero])
+			desc := fmt.Sprintf("%s file, layout %s, archive id %d, window (now-%d, now-%d]%s%s", names[fi], c.Layout, q.ID, now-from, now-until,
+				map[bool]string{true: " (from=0)", false: ""}[q.FromZero], map[bool]string{true: " (until=0)", false: ""}[q.UntilZero])
 			if pan != "" {
 				e.Violate(oracle, "%s: fetch panicked: %s", desc, pan)
 				return
 			}
-			got := model.ShapeSeries
-			if err != nil {
-				got = model.ShapeError
-			} else if ts == nil {
-				got = model.ShapeNone
+			// the instant the call may have sampled: the start clock, or any second
+			// up to the clock after the call when the clock ticked inside it
+			now2 := Now()
+			if now2 > now {
+				desc += fmt.Sprintf(", the clock ticked %d s inside the call", now2-now)
 			}
-			if got != want.Kind {
-				e.Violate(oracle, "%s: outcome %v (err=%v), the contract says %v", desc, got, err, want.Kind)
-				return
-			}
-			if got != model.ShapeSeries {
-				e.Note("outcome/" + got.String())
-				continue
-			}
-			// Points() is asked first, on the fresh result: the i-th value belongs
-			// to instant from+i*step whatever was called on the series before
-			pointsFirst := ts.Points()
-			if int64(len(pointsFirst)) != want.Count {
-				e.Violate(oracle, "%s: Points() of the fresh result has %d points, the contract says %d", desc, len(pointsFirst), want.Count)
-				return
-			}
-			if int64(ts.FromTime()) != want.From || int64(ts.UntilTime()) != want.Until || int64(ts.Step()) != want.Step || int64(len(ts.Values())) != want.Count {
-				e.Violate(oracle, "%s: got from=now-%d until=now-%d step=%d count=%d, the contract says from=now-%d until=now-%d step=%d count=%d (archive %d)",
-					desc, now-int64(ts.FromTime()), now-int64(ts.UntilTime()), ts.Step(), len(ts.Values()),
-					now-want.From, now-want.Until, want.Step, want.Count, want.Archive)
-				return
-			}
-			for i, p := range ts.Points() {
-				if int64(p.Time) != want.From+int64(i)*want.Step {
-					e.Violate(oracle, "%s: point %d carries time %d, expected from+i*step = %d", desc, i, p.Time, want.From+int64(i)*want.Step)
-					return
+			var firstViol *Violation
+			matched := false
+			for inst := now; inst <= now2 && !matched; inst++ {
+				saved := e.Viol
+				e.Viol = nil
+				want = model.Shape(archs, q.ID, from, until, inst)
+				c04Compare(e, oracle, desc, ts, err, want, inst)
+				if e.Viol == nil {
+					matched = true
+					if inst > now {
+						e.Probe("fetch-answered-for-the-instant-after-the-tick")
+					}
+				} else if firstViol == nil {
+					firstViol = e.Viol
 				}
+				e.Viol = saved
+			}
+			if !matched {
+				if e.Viol == nil {
+					e.Viol = firstViol
+				}
+				return
+			}
+			if want.Kind != model.ShapeSeries {
+				e.Note("outcome/" + want.Kind.String())
+				continue
 			}
 			if model.Floor(from, want.Step) == model.Floor(until, want.Step) && fi == 0 {
 				e.Probe("degenerate-window-on-never-written-archive")
@@ -247,7 +277,47 @@ func (c04Sim) Run(e *Env, ci interface{}) {
 			if q.ID == -1 && want.Archive > 0 {
 				e.Probe("best-archive-is-a-coarser-one")
 			}
+			if q.UntilZero {
+				e.Probe("until-is-the-epoch")
+			}
 		}
 		e.State(uint64(want.Kind)<<60 ^ uint64(want.Archive)<<50 ^ uint64(want.Count)<<20 ^ uint64(now-want.From))
+	}
+}
+
+// c04Compare judges one fetch result against the shape the contract gives for
+// the instant inst; it records a violation in e on a mismatch.
+func c04Compare(e *Env, oracle, desc string, ts *wt.TimeSeries, err error, want model.ShapeResult, now int64) {
+	got := model.ShapeSeries
+	if err != nil {
+		got = model.ShapeError
+	} else if ts == nil {
+		got = model.ShapeNone
+	}
+	if got != want.Kind {
+		e.Violate(oracle, "%s: outcome %v (err=%v), the contract says %v", desc, got, err, want.Kind)
+		return
+	}
+	if got != model.ShapeSeries {
+		return
+	}
+	// Points() is asked first, on the fresh result: the i-th value belongs
+	// to instant from+i*step whatever was called on the series before
+	pointsFirst := ts.Points()
+	if int64(len(pointsFirst)) != want.Count {
+		e.Violate(oracle, "%s: Points() of the fresh result has %d points, the contract says %d", desc, len(pointsFirst), want.Count)
+		return
+	}
+	if int64(ts.FromTime()) != want.From || int64(ts.UntilTime()) != want.Until || int64(ts.Step()) != want.Step || int64(len(ts.Values())) != want.Count {
+		e.Violate(oracle, "%s: got from=now-%d until=now-%d step=%d count=%d, the contract says from=now-%d until=now-%d step=%d count=%d (archive %d)",
+			desc, now-int64(ts.FromTime()), now-int64(ts.UntilTime()), ts.Step(), len(ts.Values()),
+			now-want.From, now-want.Until, want.Step, want.Count, want.Archive)
+		return
+	}
+	for i, p := range ts.Points() {
+		if int64(p.Time) != want.From+int64(i)*want.Step {
+			e.Violate(oracle, "%s: point %d carries time %d, expected from+i*step = %d", desc, i, p.Time, want.From+int64(i)*want.Step)
+			return
+		}
 	}
 }
